@@ -46,6 +46,9 @@ def main():
                 if os.path.exists(corpus):
                     cmds.append("grep -v '^#' %s | %s -" % (corpus, h))
                 cmds += ["%s %d %d %d %d" % (h, nrand, c.seed, i, NCPU) for i in range(NCPU)]
+                # systematic leg: depth-first enumeration of every interleaving of the queue-file calls for five small configurations
+                dlim = 150 if c.tier == "quick" else 6000
+                cmds += ["%s D %d %d %d %d" % (h, cfg, dlim, i, NCPU) for cfg in range(5) for i in range(9)]
             outs = run_pipeline(cmds, drv)
             stats, samples, disagree, oracle, errors = parse_driver_output(outs)
 
@@ -91,10 +94,14 @@ def main():
                      "Each trace is replayed event by event through QueueSys.accept and the reconstructed directory is compared with qsim's dump; the oracle evaluates on the "
                      "concrete directory after every mutating call: documented state, documented move, name = inode and split directory, number taken from S1 only, removal "
                      "order of bounce/info/mess, stale collection only after 36 h with no info/todo and no running owner, pid files only after 36 h, no queue change by a "
-                     "qmail-send without the lock. non-trivial = distinct scenario text")
+                     "qmail-send without the lock. Systematic leg: for five small configurations (injector + stale S3 leftover being collected; injector with a truncated envelope "
+                     "cleaning up while an unrelated queued message is preprocessed; two injectors; a #@[] message injected while a preprocessed message fails, bounces and is eliminated; "
+                     "injector + pid/mess leftovers being collected) every interleaving of the calls on queue files is enumerated depth-first (decisions only at those calls, an idle daemon waits "
+                     "for the trigger), up to %d schedules per first-two-choices partition; input_distribution says per configuration how many partitions were enumerated completely. "
+                     "non-trivial = distinct scenario text (incl. the schedule)" % (150 if c.tier == "quick" else 6000))
     c.cov["exhaustive"] = False
     c.cov["samples"] = samples[:6] or ["(none)"]
-    c.cov["input_distribution"] = {k: v for k, v in stats.items() if k.startswith("ev_") or k == "horizon_abort"}
+    c.cov["input_distribution"] = {k: v for k, v in stats.items() if k.startswith("ev_") or k.startswith("dfs_") or k.startswith("skipped") or k in ("horizon_abort", "budget_abort", "second_instance_abort")}
     c.assumptions += ["OS semantics of DESIGN.md 1.4 as implemented by harness/sim.c: atomic synchronous directory operations, a fresh inode number is not in use, "
                       "alarm(n) lets no call happen n seconds later, flock is a mutex, atime of a new file = creation time",
                       "qmail-clean dies with its qmail-send (a new qmail-send is started only after the previous instance's qmail-clean is gone)",
